@@ -2203,7 +2203,8 @@ class TargetRegistry:
         # determine support for any previously known types
         known_types = set(sum([list(m.keys()) for m
                                in self._op_type_map.values()], []))
-        type_map = self._op_type_map.get(op_name, OrderedDict())
+        # a copy: the handlers are only taken over once all of them are validated
+        type_map = OrderedDict(self._op_type_map.get(op_name, ()))
         type_tree = self._op_type_tree.get(op_name, OrderedDict())
         for t in sorted(known_types, key=lambda t: t.__name__):
             if t in type_map:
